@@ -81,6 +81,14 @@ func realiseGxz(abs gxzScenario, seed int64, thorough bool) []gxzScenario {
 			bads := []string{""}
 			if !abs.Cfg.InputOk {
 				bads = []string{"corrupt", "truncated"}
+				if format == "xz" {
+					// a complete stream followed by the first bytes of a second one / by stray bytes:
+					// the reader reports the error together with the last data of the first stream
+					bads = append(bads, "twostream-cut", "stray")
+				} else {
+					// content larger than the decoder's window: the error arrives with the last data
+					bads = append(bads, "truncated-big")
+				}
 			}
 			for _, bad := range bads {
 				s := abs
@@ -108,8 +116,18 @@ func realiseGxz(abs gxzScenario, seed int64, thorough bool) []gxzScenario {
 					s.Tmp = s.Tgt + ".compress"
 					s.input = plain
 				} else {
-					comp := gxzEncode(format, plain)
+					if bad == "truncated-big" {
+						s.plain = MakeData("text", 700000, seed+1)
+						args = append([]string{"-0"}, args...)
+					}
+					comp := gxzEncode(format, s.plain)
 					switch bad {
+					case "twostream-cut":
+						comp = append(append([]byte{}, comp...), comp[:8]...)
+					case "stray":
+						comp = append(append([]byte{}, comp...), 0x13, 0x37, 0x42)
+					case "truncated-big":
+						comp = comp[:len(comp)*2/3]
 					case "corrupt":
 						comp = append([]byte{}, comp...)
 						comp[len(comp)/2] ^= 0x40
@@ -234,15 +252,15 @@ func errnoFor(name string) syscall.Errno {
 }
 
 type gxzRun struct {
-	sc     gxzScenario
-	plan   ptr.Plan
-	res    ptr.Result
-	in     string
-	tgt    string
-	tmp    string
-	extra  []string
-	at     string // name+symbol of the syscall at the crash/fault point
-	trace  []byte
+	sc    gxzScenario
+	plan  ptr.Plan
+	res   ptr.Result
+	in    string
+	tgt   string
+	tmp   string
+	extra []string
+	at    string // name+symbol of the syscall at the crash/fault point
+	trace []byte
 }
 
 func runGxz(c *hx.Ctx, bin string, sc gxzScenario, plan ptr.Plan) (*gxzRun, error) {
